@@ -48,6 +48,12 @@ func (t *Trace) add(e Event) {
 	t.mu.Unlock()
 }
 
+func (t *Trace) lastSeq() int64 {
+	t.mu.Lock()
+	defer t.mu.Unlock()
+	return t.seq
+}
+
 func (t *Trace) snapshot() []Event {
 	t.mu.Lock()
 	defer t.mu.Unlock()
